@@ -107,6 +107,44 @@ func checkGenericRedaction(c *fw.Ctx) {
 		return
 	}
 	c.SawFn("redactEventJSON")
+	// the projection the event is decoded into is a fresh value per call: json.Unmarshal leaves
+	// the fields of absent keys as they are, so a recycled struct (a pool, a package-level
+	// variable) leaks the previous event's keys into the next redaction
+	nProj := 0
+	for _, f := range c.P.SrcFuncs() {
+		for _, call := range fw.Calls(f) {
+			cal := call.Common().StaticCallee()
+			if cal == nil || fw.FuncName(cal) != "gmsl.redactEventJSON" || f == cal || len(call.Common().Args) < 2 {
+				continue
+			}
+			nProj++
+			arg := call.Common().Args[1]
+			shared := ""
+			fresh := false
+			fw.DerivesFrom(arg, fw.FlowSpec{IsSource: func(v ssa.Value) bool {
+				switch x := v.(type) {
+				case *ssa.Alloc:
+					fresh = true
+				case *ssa.Global:
+					shared = "the package-level variable " + fw.Sig(x)
+				}
+				if k, _ := fw.CallOf(v); k != nil && strings.HasPrefix(fw.CalleeName(k), "(*sync.Pool).Get") {
+					shared = "a sync.Pool"
+				}
+				return false
+			}})
+			construct := fw.FuncName(f) + ": the redaction projection is a fresh value"
+			switch {
+			case shared != "":
+				c.Fail(rule, construct, c.P.Pos(call.Pos()), "the struct the event is decoded into comes from "+shared+": json.Unmarshal does not clear fields whose keys are absent, so keys of a previously redacted (or refused) event appear in this event's redacted form")
+			case fresh:
+				c.Ok(rule, construct, c.P.Pos(call.Pos()), "")
+			default:
+				c.Undecided(rule, construct, "origin of the projection argument not recognised: "+fw.Sig(arg))
+			}
+		}
+	}
+	c.Count("projection call sites", nProj)
 	// (a) every map update into the new content copies a value obtained by a comma-ok lookup
 	//     under the same key, and is guarded by that lookup's ok flag.
 	updates := 0
